@@ -12,8 +12,10 @@ import (
 	"testing"
 	"time"
 
+	gerrors "github.com/tochemey/goakt/v4/errors"
 	"github.com/tochemey/goakt/v4/internal/verif/vsched"
 	"github.com/tochemey/goakt/v4/log"
+	"github.com/tochemey/goakt/v4/supervisor"
 )
 
 // ---------------------------------------------------------------------------------------------
@@ -512,12 +514,218 @@ func c17Run(t *testing.T, shape c17Shape, twoParked bool, c *vsched.Chooser) vsc
 	return vsched.Outcome{Obs: strings.Join(obs, " | "), Violations: viol}
 }
 
+// ---------------------------------------------------------------------------------------------
+// Scenario family stop-restart-backoff-*: Stop while a supervised restart is waiting out its backoff.
+//
+// A child under a Restart directive with WithExponentialBackoff(1s, 2s) panics on a `boom` message: it is
+// suspended and its parent arms the delayed restart (a goroutine sleeping on the bubble's clock). Events
+// {stop, advance 0.4s, advance 0.7s} in EVERY order: Stop can land before, inside or after the delay
+// window (the restart is due 1s after the fault). Afterwards virtual time is advanced well past every
+// backoff. Oracle (same clauses as above, extended to PreStart):
+//   * no user hook (PreStart / Receive / PostStop) is entered after Stop returned   -> hook-entered-after-stop-returned
+//   * PostStop exactly once (during the teardown) for every actor that was running when Stop was called;
+//     at most once for the one that was suspended waiting for its restart
+//   * no user actor is running after Stop returned (and after all timers fired)     -> actor-running-after-stop-returned
+//   * children before parents for the PostStops of the teardown.
+// ---------------------------------------------------------------------------------------------
+
+type c17Boom struct{}
+
+type c17RActor struct {
+	name string
+	log  *vfLog
+}
+
+func (a *c17RActor) PreStart(*Context) error { a.log.add("prestart:%s", a.name); return nil }
+func (a *c17RActor) PostStop(*Context) error { a.log.add("poststop:%s", a.name); return nil }
+func (a *c17RActor) Receive(ctx *ReceiveContext) {
+	switch ctx.Message().(type) {
+	case *c17Boom:
+		a.log.add("enter:%s:boom", a.name)
+		panic("c17: boom")
+	case *c17Msg:
+		a.log.add("enter:%s:msg", a.name)
+	}
+}
+
+type c17RShape struct {
+	name   string
+	parent []int // parent index, -1 = user guardian
+	faulty int   // the actor that panics (must have a parent actor)
+}
+
+var c17RShapes = []c17RShape{
+	{"child", []int{-1, 0}, 1},
+	{"grandchild", []int{-1, 0, 1}, 2},
+	{"sibling", []int{-1, 0, 0}, 1},
+	{"child-with-own-child", []int{-1, 0, 1}, 1},
+}
+
+func c17RestartRun(t *testing.T, shape c17RShape, c *vsched.Chooser) vsched.Outcome {
+	n := len(shape.parent)
+	lg := &vfLog{}
+	var (
+		obs     []string
+		viol    []vsched.Violation
+		invalid string
+		running []string
+		mu      sync.Mutex
+		done    bool
+	)
+	runningAtStop := make([]bool, n)
+	fail := func(sig, format string, a ...any) { viol = append(viol, vsched.Fail(sig, format, a...)) }
+	p := vfBubble(t, func() {
+		ctx := context.Background()
+		sys := c17NewSystem("c17r")
+		pids := make([]*PID, n)
+		for i := 0; i < n; i++ {
+			sup := supervisor.NewSupervisor(
+				supervisor.WithDirective(&gerrors.PanicError{}, supervisor.RestartDirective),
+				supervisor.WithExponentialBackoff(time.Second, 2*time.Second, 0))
+			act := &c17RActor{name: c17Names[i], log: lg}
+			var err error
+			if shape.parent[i] < 0 {
+				pids[i], err = sys.Spawn(ctx, c17Names[i], act, WithLongLived(), WithSupervisor(sup))
+			} else {
+				pids[i], err = pids[shape.parent[i]].SpawnChild(ctx, c17Names[i], act, WithLongLived(), WithSupervisor(sup))
+			}
+			if err != nil {
+				panic(fmt.Sprintf("spawn %s: %v", c17Names[i], err))
+			}
+		}
+		vfSettle()
+		if err := Tell(ctx, pids[shape.faulty], &c17Boom{}); err != nil {
+			panic(err)
+		}
+		vfSettle() // the faulty actor is suspended, its delayed restart is armed
+		if !pids[shape.faulty].IsSuspended() {
+			invalid = "the faulty actor is not suspended after the fault (harness expectation)"
+		}
+		seen := 0
+		step := func(label string) {
+			vfSettle()
+			snap := lg.snapshot()
+			fresh := append([]string(nil), snap[seen:]...)
+			seen = len(snap)
+			sort.Strings(fresh)
+			obs = append(obs, label+"{"+strings.Join(fresh, ",")+"}")
+		}
+		remaining := []string{"stop", "adv0.4s", "adv0.7s"}
+		for len(remaining) > 0 {
+			k := c.Choose("event", len(remaining), nil, func(i int) string { return remaining[i] })
+			ev := remaining[k]
+			remaining = append(remaining[:k], remaining[k+1:]...)
+			switch ev {
+			case "stop":
+				for i := 0; i < n; i++ {
+					runningAtStop[i] = pids[i].IsRunning()
+				}
+				lg.add("stop-called")
+				go func() {
+					_ = sys.Stop(ctx)
+					lg.add("stop-returned")
+					mu.Lock()
+					done = true
+					mu.Unlock()
+				}()
+			case "adv0.4s":
+				time.Sleep(400 * time.Millisecond)
+			case "adv0.7s":
+				time.Sleep(700 * time.Millisecond)
+			}
+			step(ev)
+		}
+		mu.Lock()
+		d := done
+		mu.Unlock()
+		if !d {
+			time.Sleep(DefaultShutdownTimeout + time.Minute)
+			vfSettle()
+			invalid = "Stop did not return at quiescence (no verdict)"
+		}
+		// every backoff timer fires
+		time.Sleep(time.Minute)
+		step("drain")
+		for i := 0; i < n; i++ {
+			if pids[i].IsRunning() {
+				running = append(running, c17Names[i])
+			}
+		}
+		sys.stopCoalescedFailureDrain()
+		vfSettle()
+	})
+	if p != nil {
+		return vsched.Outcome{Invalid: fmt.Sprintf("harness panic: %v", p)}
+	}
+	if invalid != "" {
+		return vsched.Outcome{Invalid: invalid}
+	}
+	evs := lg.snapshot()
+	stopRet := -1
+	for i, e := range evs {
+		if e == "stop-returned" {
+			stopRet = i
+		}
+	}
+	if stopRet < 0 {
+		return vsched.Outcome{Invalid: "stop-returned marker missing"}
+	}
+	stopCalled := -1
+	for i, e := range evs {
+		if e == "stop-called" {
+			stopCalled = i
+		}
+	}
+	stops := map[string]int{} // PostStops of the teardown (after Stop was called)
+	lastStop := map[string]int{}
+	for i, e := range evs {
+		hook := strings.HasPrefix(e, "prestart:") || strings.HasPrefix(e, "poststop:") || strings.HasPrefix(e, "enter:")
+		if hook && i > stopRet {
+			fail("hook-entered-after-stop-returned", "%s after Stop returned; log: %v", e, evs)
+		}
+		if strings.HasPrefix(e, "poststop:") && i > stopCalled {
+			nm := strings.TrimPrefix(e, "poststop:")
+			stops[nm]++
+			lastStop[nm] = i
+		}
+	}
+	for i := 0; i < n; i++ {
+		nm := c17Names[i]
+		switch {
+		case stops[nm] > 1:
+			fail("poststop-ran-more-than-once", "actor %s: PostStop ran %d times during the teardown; log: %v", nm, stops[nm], evs)
+		case stops[nm] == 0 && runningAtStop[i]:
+			// an actor that was suspended (waiting for its restart) when Stop was called is not a
+			// "running user actor" of the statement: 0 or 1 PostStop are both accepted for it
+			fail("poststop-never-ran", "actor %s was running when Stop was called and its PostStop never ran; log: %v", nm, evs)
+		}
+		if pa := shape.parent[i]; pa >= 0 && stops[nm] > 0 && stops[c17Names[pa]] > 0 && lastStop[c17Names[pa]] < lastStop[nm] {
+			fail("parent-poststop-before-child-poststop-finished", "PostStop of parent %s before the PostStop of child %s; log: %v", c17Names[pa], nm, evs)
+		}
+	}
+	if len(running) > 0 {
+		fail("actor-running-after-stop-returned", "actors %v report IsRunning() after Stop returned and every timer fired; log: %v", running, evs)
+	}
+	return vsched.Outcome{Obs: strings.Join(obs, " | "), Violations: viol}
+}
+
 func TestVerifC17(t *testing.T) {
 	defer vsched.Finish(t)
 	r := vsched.Rep()
 	r.Assumption("granularity: events (start of Stop, gate releases) are separated by quiescence; races inside one quiescent step (e.g. Tell racing the running->stopped transition of its target) are not explored")
 	r.Assumption("the dispatcher is built with 8 workers (GOMAXPROCS raised to 8 around NewActorSystem only) so that up to 4 parked user functions never exhaust it")
 	var scs []vsched.Scenario
+	// the (tiny) restart-backoff scenarios first so that a starved budget never skips them
+	for _, sh := range c17RShapes {
+		sh := sh
+		scs = append(scs, vsched.Scenario{
+			Cfg: vsched.Config{Scenario: "stop-restart-backoff-" + sh.name, Bound: 0, SplitDepth: 1, Params: map[string]any{
+				"tree_parent_index": fmt.Sprint(sh.parent), "faulty": c17Names[sh.faulty], "supervisor": "Restart on panic, exponential backoff 1s..2s",
+				"events": "all permutations of {stop, advance 0.4s, advance 0.7s} after the fault (restart due 1s after it)",
+			}},
+			Run: func(c *vsched.Chooser) vsched.Outcome { return c17RestartRun(t, sh, c) },
+		})
+	}
 	for _, sh := range c17Shapes {
 		sh := sh
 		if !r.Thorough() && len(sh.parent) == 4 && sh.name != "ytree4" && sh.name != "forest4" && sh.name != "chain4" {
